@@ -15,7 +15,9 @@ else
   W=/var/tmp/seedtry.$$; mkdir -p $W
   git clone -q /repo $W/repo
   ( cd $W/repo && git apply "$P" ) || { echo "patch does not apply to /repo HEAD"; rm -rf $W; exit 3; }
-  cp -r "$V" $W/verif; rm -rf $W/verif/.git $W/verif/work $W/verif/bin $W/verif/replay
+  # the COMMITTED state of /verif (edits in progress do not leak into the trial); WORKTREE=1 copies the working tree instead
+  if [ "${WORKTREE:-0}" = 1 ]; then cp -r "$V" $W/verif; rm -rf $W/verif/.git $W/verif/work $W/verif/bin $W/verif/replay
+  else mkdir -p $W/verif; git -C "$V" archive HEAD | tar -x -C $W/verif; fi
   sed -i "s|=> /repo|=> $W/repo|" $W/verif/go.mod
   cd $W/verif
 fi
